@@ -223,8 +223,81 @@ pub fn run_c08(tier: Tier) -> i32 {
     report.finish(cov)
 }
 
+/// The voting component forwards the whole bundle whatever its own pruning state.
+fn votor_forwards_bundle(report: &Report) -> usize {
+    use crate::nodesys::Core;
+    use alpenglow::consensus::{Cert, ConsensusMessage, PoolEvent};
+    use alpenglow::types::Slot;
+    let epoch = Arc::new(make_epoch(&[1, 1, 1]));
+    let mut f = Factory::new(epoch.clone());
+    let cert_specs = [
+        CertSpec { kind: CK::FastFinal, slot: 1, blk: 0, s1: 0b111, s2: 0 },
+        CertSpec { kind: CK::Notar, slot: 2, blk: 0, s1: 0b110, s2: 0 },
+        CertSpec { kind: CK::Final, slot: 2, blk: 0, s1: 0b110, s2: 0 },
+        CertSpec { kind: CK::Skip, slot: 3, blk: 0, s1: 0b010, s2: 0b100 },
+        CertSpec { kind: CK::NotarFb, slot: 5, blk: 1, s1: 0b010, s2: 0b100 },
+    ];
+    let vote_specs = [
+        VoteSpec { kind: VK::Notar, slot: 2, blk: 0, signer: 0 },
+        VoteSpec { kind: VK::Final, slot: 2, blk: 0, signer: 0 },
+        VoteSpec { kind: VK::Skip, slot: 3, blk: 0, signer: 0 },
+        VoteSpec { kind: VK::NotarFb, slot: 5, blk: 1, signer: 0 },
+    ];
+    let certs: Vec<Cert> = cert_specs.iter().map(|c| f.raw_cert(c)).collect();
+    let votes: Vec<alpenglow::consensus::Vote> = vote_specs.iter().map(|v| f.raw_vote(v)).collect();
+    let _ = &mut f;
+    let mut cases = 0;
+    for state in ["fresh", "final-cert-far-ahead", "slots-retired", "standstill-slot-below-own-window"] {
+        for bundle_slot in [1u64, 2, 3, 200] {
+            cases += 1;
+            let r = crate::common::catch(|| {
+                let mut core = Core::new(&epoch, 0);
+                match state {
+                    "final-cert-far-ahead" => {
+                        let far = f.raw_cert(&CertSpec { kind: CK::Final, slot: 100, blk: 0, s1: 0b110, s2: 0 });
+                        crate::common::poll_once(core.votor.verif_handle_pool_event(PoolEvent::CertCreated(far)));
+                    }
+                    "slots-retired" => {
+                        for c in &certs[..3] {
+                            crate::common::poll_once(core.votor.verif_handle_pool_event(PoolEvent::CertCreated(c.clone())));
+                        }
+                    }
+                    "standstill-slot-below-own-window" => {
+                        let far = f.raw_cert(&CertSpec { kind: CK::FastFinal, slot: 9, blk: 0, s1: 0b111, s2: 0 });
+                        crate::common::poll_once(core.votor.verif_handle_pool_event(PoolEvent::CertCreated(far)));
+                    }
+                    _ => {}
+                }
+                let _ = core.take_out();
+                crate::common::poll_once(core.votor.verif_handle_pool_event(PoolEvent::Standstill(Slot::new(bundle_slot), certs.clone(), votes.clone())));
+                core.take_out()
+            });
+            let replay = json!({"oracle": "votor-forwards-bundle", "votor_state": state, "bundle_slot": bundle_slot});
+            match r {
+                Err(p) => report.violation(format!("C18:votor-panics-on-bundle:{state}"), p, replay),
+                Ok(out) => {
+                    let want: Vec<Vec<u8>> = certs.iter().map(|c| wincode::serialize(&ConsensusMessage::Cert(c.clone())).unwrap())
+                        .chain(votes.iter().map(|v| wincode::serialize(&ConsensusMessage::Vote(v.clone())).unwrap())).collect();
+                    let got: Vec<Vec<u8>> = out.iter().map(|m| wincode::serialize(m).unwrap()).collect();
+                    let missing = want.iter().filter(|w| !got.contains(w)).count();
+                    if missing > 0 {
+                        report.violation(
+                            format!("C18:votor-drops-bundle:{state}"),
+                            format!("Votor in state '{state}' handed a Standstill bundle for slot {bundle_slot} broadcast {} of its {} elements", want.len() - missing, want.len()),
+                            replay,
+                        );
+                    }
+                }
+            }
+        }
+    }
+    cases
+}
+
 pub fn run_c18(tier: Tier) -> i32 {
     let report = Report::new("C18", tier, "model_checking");
+    let votor_cases = votor_forwards_bundle(&report);
+    println!("  votor forwarding cases: {votor_cases}");
     let cov = run_scens(&report, "C18", scen_set(tier), tier.pick(400_000, 4_000_000), tier.pick(20, 120), tier.pick(50, 850));
     report.finish(cov)
 }
